@@ -1,5 +1,6 @@
 import ScsiVerif.Props.C04
 import ScsiVerif.Std.DataIn2
+import ScsiVerif.Lemmas.Reserved
 /-!
 # C04 (continued) — whole-response theorems for the formats with variable-length descriptors
 
@@ -113,5 +114,240 @@ example : ∃ ds : List (Vals × Bytes), ds.length = 2 ∧ (∀ d ∈ ds, PrioOK
   rcases hd with rfl | rfl
   · exact ⟨by intro g hg; revert g; decide, rfl⟩
   · exact ⟨by intro g hg; revert g; decide, rfl⟩
+
+/-! ## REPORT TARGET PORT GROUPS -/
+
+theorem tpgd_c : compatible Gen.ReportTargetPortGroups_tpgd_bits tpgDescriptor.rel 8 = true := by decide +kernel
+theorem tport_f : formatOK targetPortDescriptor.len targetPortDescriptor.rel = true := by decide +kernel
+theorem exth_c : compatible Gen.ReportTargetPortGroups_ext_hdr_bits rtpgExtHeader.rel 4 = true := by decide +kernel
+
+/-- a target port group descriptor is well formed: values fit, TARGET PORT COUNT is the number of
+    target port descriptors that follow -/
+def TpgOK (g : Vals × List Vals) : Prop :=
+  InRangeD tpgDescriptor.rel g.1 ∧ g.1 "target_port_count" = g.2.length ∧
+  ∀ p ∈ g.2, InRangeD targetPortDescriptor.rel p
+
+def portReported (p : Vals) : PV := .dict [("relative_target_port_id", .int (p "relative_target_port_id"))]
+
+/-- what the library reports for one target port group descriptor -/
+def tpgReported (g : Vals × List Vals) : PV :=
+  .dict (reported Gen.ReportTargetPortGroups_tpgd_bits g.1 ++ [("target_ports", .list (g.2.map portReported))])
+
+theorem pieces_flatten_append (k : Nat) (hk : 0 < k) (items : List Bytes) (h : ∀ x ∈ items, x.length = k) (rest : Bytes) :
+    pieces k (items.flatten ++ rest) = items ++ pieces k rest := by
+  induction items with
+  | nil => simp
+  | cons x xs ih =>
+    have hx : x.length = k := h x (by simp)
+    have hne : ¬ (((x :: xs).flatten ++ rest).length = 0 ∨ k = 0) := by
+      simp only [List.flatten_cons, List.length_append]; omega
+    rw [pieces, dif_neg hne]
+    simp only [List.flatten_cons, List.append_assoc, List.cons_append]
+    rw [List.take_left' hx, List.drop_left' hx, ih (fun y hy => h y (by simp [hy]))]
+
+theorem ports_len (ps : List Vals) : ∀ x ∈ ps.map targetPortDescriptor.enc, x.length = 4 := by
+  intro x hx
+  obtain ⟨v, _, rfl⟩ := List.mem_map.mp hx
+  exact enc_length _ v
+
+theorem ports_flat_len (ps : List Vals) : (ps.map targetPortDescriptor.enc).flatten.length = 4 * ps.length := by
+  rw [flatten_length_const 4 _ (ports_len ps)]; simp
+
+theorem encTpg_length (g : Vals × List Vals) : (encTpg g).length = 8 + 4 * g.2.length := by
+  unfold encTpg
+  rw [List.length_append, enc_length, ports_flat_len]; rfl
+
+/-- byte 7 of a target port group descriptor is TARGET PORT COUNT -/
+theorem tpg_byte7 (g : Vals × List Vals) (h : TpgOK g) (rest : Bytes) :
+    (encTpg g ++ rest)[7]? = some g.2.length := by
+  obtain ⟨x, hx, hxv⟩ := idx_top_field tpgDescriptor (compatible_format tpgd_c) g.1 h.1
+    ((g.2.map targetPortDescriptor.enc).flatten ++ rest) ⟨"target_port_count", 7, 7, 8⟩ (by decide) rfl (by decide)
+  simp only [Nat.sub_self, Nat.shiftRight_zero] at hxv
+  unfold idx at hx
+  unfold encTpg
+  rw [List.append_assoc]
+  cases hq : (tpgDescriptor.enc g.1 ++ ((g.2.map targetPortDescriptor.enc).flatten ++ rest))[7]? with
+  | none => rw [hq] at hx; cases hx
+  | some y =>
+    rw [hq] at hx
+    injection hx with hx
+    rw [hx, hxv, h.2.1]
+
+/-- the descriptor loop visits exactly the descriptors -/
+theorem tpgChunks_std (gs : List (Vals × List Vals)) (h : ∀ g ∈ gs, TpgOK g) :
+    Dec.tpgChunks (gs.map encTpg).flatten = gs.map encTpg := by
+  induction gs with
+  | nil => unfold Dec.tpgChunks; simp
+  | cons g gs ih =>
+    have hg := h g (by simp)
+    have hne : ¬ ((List.map encTpg (g :: gs)).flatten.length = 0) := by
+      simp only [List.map_cons, List.flatten_cons, List.length_append, encTpg_length]; omega
+    rw [Dec.tpgChunks, dif_neg hne]
+    simp only [List.map_cons, List.flatten_cons]
+    rw [tpg_byte7 g hg]
+    have hdrop8 : (encTpg g ++ (gs.map encTpg).flatten).drop 8
+        = (g.2.map targetPortDescriptor.enc).flatten ++ (gs.map encTpg).flatten := by
+      unfold encTpg
+      rw [List.append_assoc, List.drop_left' (show (tpgDescriptor.enc g.1).length = 8 from enc_length _ _)]
+    have hn : 8 + 4 * ((pieces 4 ((encTpg g ++ (gs.map encTpg).flatten).drop 8)).take ((some g.2.length).getD 0)).length
+        = 8 + 4 * g.2.length := by
+      rw [hdrop8, pieces_flatten_append 4 (by decide) _ (ports_len g.2)]
+      simp
+    simp only [hn]
+    rw [List.take_left' (encTpg_length g), List.drop_left' (encTpg_length g), ih (fun x hx => h x (by simp [hx]))]
+
+theorem tpg_set (v : Vals) (x : PV) :
+    (reported Gen.ReportTargetPortGroups_tpgd_bits v).set "target_ports" x =
+      reported Gen.ReportTargetPortGroups_tpgd_bits v ++ [("target_ports", x)] := by
+  apply set_fresh
+  intro kv hkv
+  have : kv.1 ∈ (reported Gen.ReportTargetPortGroups_tpgd_bits v).map (·.1) := List.mem_map.mpr ⟨kv, hkv, rfl⟩
+  rw [reported_keys] at this
+  intro heq
+  rw [heq] at this
+  revert this
+  decide
+
+theorem tpg_count (v : Vals) :
+    getInt (reported Gen.ReportTargetPortGroups_tpgd_bits v) "target_port_count" = .ok (v "target_port_count") :=
+  getInt_reported _ v "target_port_count" 255 7 (by decide)
+
+/-- the inner loop over target port descriptors -/
+theorem targetPorts_std (ps : List Vals) (h : ∀ p ∈ ps, InRangeD targetPortDescriptor.rel p) :
+    (Dec.targetPorts (ps.map targetPortDescriptor.enc).flatten ps.length).1 = ps.map portReported := by
+  unfold Dec.targetPorts
+  simp only
+  rw [pieces_flatten 4 (by decide) _ (ports_len ps)]
+  rw [List.take_of_length_le (by simp), List.map_map]
+  apply List.map_congr_left
+  intro p hp
+  simp only [Function.comp, portReported]
+  have := b2i_slice_field targetPortDescriptor tport_f p (h p hp) [] ⟨"relative_target_port_id", 2, 7, 16⟩ (by decide) 2 rfl rfl (by decide)
+  simp only [Nat.reduceAdd, List.append_nil] at this
+  rw [this]
+
+/-- one descriptor, as the loop body decodes it -/
+theorem tpg_one (g : Vals × List Vals) (h : TpgOK g) :
+    (do let (t, cnt) ← Dec.tpgHeader (encTpg g)
+        pure (PV.dict (t.set "target_ports" (.list (Dec.targetPorts ((encTpg g).drop 8) cnt).1)))) = .ok (tpgReported g) := by
+  unfold Dec.tpgHeader
+  have hd : decodeInto (encTpg g) Gen.ReportTargetPortGroups_tpgd_bits [] = .ok (reported Gen.ReportTargetPortGroups_tpgd_bits g.1) := by
+    unfold encTpg
+    exact decodeInto_std_nil _ _ tpgd_c g.1 h.1 _
+  rw [hd]
+  simp only [bind, Except.bind, pure, Except.pure]
+  rw [tpg_count]
+  dsimp only
+  have hdrop : (encTpg g).drop 8 = (g.2.map targetPortDescriptor.enc).flatten := by
+    unfold encTpg; rw [List.drop_left' (show (tpgDescriptor.enc g.1).length = 8 from enc_length _ _)]
+  rw [hdrop, h.2.1, targetPorts_std g.2 h.2.2, tpg_set]
+  rfl
+
+theorem tpgDescriptors_std (gs : List (Vals × List Vals)) (h : ∀ g ∈ gs, TpgOK g) :
+    Dec.tpgDescriptors (gs.map encTpg).flatten = .ok (gs.map tpgReported) := by
+  unfold Dec.tpgDescriptors
+  rw [tpgChunks_std gs h]
+  apply mapM_map_ok
+  intro g hg
+  exact tpg_one g (h g hg)
+
+theorem encTpgs_length (gs : List (Vals × List Vals)) : (gs.map encTpg).flatten.length = tpgBodyLen gs := by
+  induction gs with
+  | nil => rfl
+  | cons g gs ih =>
+    simp only [List.map_cons, List.flatten_cons, List.length_append, ih, tpgBodyLen, List.foldr_cons, encTpg_length]
+
+/-- REPORT TARGET PORT GROUPS, extended header format: FORMAT TYPE and IMPLICIT TRANSITION TIME, then
+    every target port group descriptor inside RETURN DATA LENGTH (n−3) with all its target ports -/
+theorem rtpg_ext_decodes (hv : Vals) (gs : List (Vals × List Vals)) (hh : InRangeD rtpgExtHeader.rel hv)
+    (hft : hv "format_type" = 1) (h : ∀ g ∈ gs, TpgOK g) (hfit : 4 + tpgBodyLen gs < 2 ^ 32) (tr : Bytes) :
+    Dec.reportTargetPortGroups (encRtpgExt hv gs ++ tr) =
+      .ok (.dict [("format_type", .int 1), ("implicit_transition_time", .int (hv "implicit_transition_time")),
+                  ("target_port_group_descriptors", .list (gs.map tpgReported))]) := by
+  have e0 : encRtpgExt hv gs ++ tr
+      = toBytes (4 + tpgBodyLen gs) 4 ++ (rtpgExtHeader.enc hv ++ (gs.map encTpg).flatten ++ tr) := by
+    unfold encRtpgExt; simp
+  have e : encRtpgExt hv gs ++ tr
+      = toBytes (4 + tpgBodyLen gs) 4 ++ (rtpgExtHeader.enc hv ++ (gs.map encTpg).flatten) ++ tr := by
+    unfold encRtpgExt; simp
+  have h1 : slice (encRtpgExt hv gs ++ tr) 0 4 = toBytes (4 + tpgBodyLen gs) 4 := by
+    rw [e0]; exact slice_prefix _ _ 4 (toBytes_length _ _)
+  unfold Dec.reportTargetPortGroups
+  rw [h1, b2i_be _ 4 (by simpa using hfit)]
+  rw [e, slice_mid _ _ _ 4 _ (toBytes_length _ _) (by rw [List.length_append, enc_length, encTpgs_length]; show 4 + (4 + tpgBodyLen gs) = _; omega)]
+  have hlen : (rtpgExtHeader.enc hv ++ (gs.map encTpg).flatten).length ≥ 4 := by
+    rw [List.length_append, enc_length]; show 4 + _ ≥ 4; omega
+  dsimp only
+  rw [if_pos hlen, decodeInto_std_nil _ _ exth_c hv hh _]
+  simp only [bind, Except.bind, pure, Except.pure]
+  rw [getInt_reported _ hv "format_type" 112 0 (by decide), hft]
+  dsimp only
+  rw [if_pos rfl, getInt_reported _ hv "implicit_transition_time" 255 1 (by decide)]
+  dsimp only
+  rw [List.drop_left' (show (rtpgExtHeader.enc hv).length = 4 from enc_length _ _), tpgDescriptors_std gs h]
+  rfl
+
+/-- in a target port group descriptor the bits the extended header's table calls FORMAT TYPE
+    (byte 0, bits 6–4) are reserved -/
+theorem exth_on_tpg : tableOK Gen.ReportTargetPortGroups_ext_hdr_bits = true ∧
+    reservedKey tpgDescriptor.len tpgDescriptor.rel Gen.ReportTargetPortGroups_ext_hdr_bits "format_type" = true := by
+  decide +kernel
+
+/-- REPORT TARGET PORT GROUPS, length only header format: every target port group descriptor inside
+    RETURN DATA LENGTH (n−3) with all its target ports, in order; FORMAT TYPE reported as 0 -/
+theorem rtpg_decodes (gs : List (Vals × List Vals)) (h : ∀ g ∈ gs, TpgOK g) (hfit : tpgBodyLen gs < 2 ^ 32) (tr : Bytes) :
+    Dec.reportTargetPortGroups (encRtpg gs ++ tr) =
+      .ok (.dict [("format_type", .int 0), ("target_port_group_descriptors", .list (gs.map tpgReported))]) := by
+  have e0 : encRtpg gs ++ tr = toBytes (tpgBodyLen gs) 4 ++ ((gs.map encTpg).flatten ++ tr) := by
+    unfold encRtpg; simp
+  have e : encRtpg gs ++ tr = toBytes (tpgBodyLen gs) 4 ++ (gs.map encTpg).flatten ++ tr := by
+    unfold encRtpg; simp
+  have h1 : slice (encRtpg gs ++ tr) 0 4 = toBytes (tpgBodyLen gs) 4 := by
+    rw [e0]; exact slice_prefix _ _ 4 (toBytes_length _ _)
+  unfold Dec.reportTargetPortGroups
+  rw [h1, b2i_be _ 4 (by simpa using hfit)]
+  rw [e, slice_mid _ _ _ 4 _ (toBytes_length _ _) (by rw [encTpgs_length]; omega)]
+  dsimp only
+  cases gs with
+  | nil =>
+    simp only [List.map_nil, List.flatten_nil, List.length_nil]
+    rw [if_neg (by decide)]
+    simp only [bind, Except.bind, pure, Except.pure]
+    unfold Dec.tpgDescriptors Dec.tpgChunks
+    simp [PDict.set]
+    rfl
+  | cons g gs =>
+    have hlen : ((List.map encTpg (g :: gs)).flatten).length ≥ 4 := by
+      simp only [List.map_cons, List.flatten_cons, List.length_append, encTpg_length]; omega
+    rw [if_pos hlen]
+    have hg := h g (by simp)
+    obtain ⟨r, hr1, hr2⟩ := decodeInto_reserved tpgDescriptor (compatible_format tpgd_c) g.1 hg.1
+      ((g.2.map targetPortDescriptor.enc).flatten ++ (gs.map encTpg).flatten)
+      Gen.ReportTargetPortGroups_ext_hdr_bits exth_on_tpg.1 "format_type" exth_on_tpg.2
+    have hshape : (List.map encTpg (g :: gs)).flatten
+        = tpgDescriptor.enc g.1 ++ ((g.2.map targetPortDescriptor.enc).flatten ++ (gs.map encTpg).flatten) := by
+      simp only [List.map_cons, List.flatten_cons]
+      unfold encTpg
+      simp
+    rw [show decodeInto (List.map encTpg (g :: gs)).flatten Gen.ReportTargetPortGroups_ext_hdr_bits [] = .ok r from by
+      rw [hshape]; exact hr1]
+    simp only [bind, Except.bind, pure, Except.pure]
+    rw [hr2]
+    dsimp only
+    rw [if_neg (by decide), tpgDescriptors_std (g :: gs) h]
+    rfl
+
+/-- the hypotheses are satisfiable by a non-trivial response (two groups with 2 and 0 ports) -/
+example : ∃ gs : List (Vals × List Vals), gs.length = 2 ∧ (∀ g ∈ gs, TpgOK g) ∧ tpgBodyLen gs < 2 ^ 32 := by
+  refine ⟨[(fun k => if k = "target_port_count" then 2 else if k = "target_port_group" then 513 else 1, [fun _ => 7, fun _ => 65535]),
+           (fun k => if k = "target_port_count" then 0 else 0, [])], rfl, ?_, by decide⟩
+  intro g hg
+  simp only [List.mem_cons, List.not_mem_nil, or_false] at hg
+  rcases hg with rfl | rfl
+  · refine ⟨by intro g hg; revert g; decide, rfl, ?_⟩
+    intro p hp
+    simp only [List.mem_cons, List.not_mem_nil, or_false] at hp
+    rcases hp with rfl | rfl <;> (intro g hg; revert g; decide)
+  · exact ⟨by intro g hg; revert g; decide, rfl, by intro p hp; cases hp⟩
 
 end C04
